@@ -216,6 +216,7 @@ def search_new_row(exe, d, t, rules, seed, names):
 P1 = "func main(a : int) -> int { 10 / a }"
 P1C = "func main(a : int) -> int { 10 / a } catch (division_by_zero) { 7 }"
 P2 = "func main() -> int { 1 }"
+PARGV = "func main(argv[argc] : string) -> int { argc }"
 
 def api_histories():
     """compile/execute/delete orders with several programs alive (DESIGN §7 item 8 first)"""
@@ -234,6 +235,10 @@ def api_histories():
     H.append((None, [("new", 0), ("compile", 0, "func main() -> int { ? }"), ("del", 0), ("new", 0), ("compile", 0, P2),
                      ("prepare", 0, "main"), ("vmnew", 0, 100, 50), ("vmnew", 1, 5000, 200), ("exec", 0, 0), ("exec", 0, 1),
                      ("vmdel", 1), ("vmdel", 0), ("del", 0)]))
+    # the command-line entry (nev_prepare_argc_argv) with a string-array main: once (must be clean), twice (the first argv object is dropped)
+    H.append((None, [("new", 0), ("compile", 0, PARGV), ("prepareargv", 0, "main", 2), ("vmnew", 0, 5000, 200), ("exec", 0, 0), ("vmdel", 0), ("del", 0)]))
+    H.append(("prepare-argv-twice", [("new", 0), ("compile", 0, PARGV), ("prepareargv", 0, "main", 2), ("prepareargv", 0, "main", 3), ("vmnew", 0, 5000, 200),
+                                     ("exec", 0, 0), ("vmdel", 0), ("del", 0)]))
     return H
 
 def check(tier, seed):
